@@ -401,8 +401,88 @@ def run_schedule(req):
                                                "second_thread_passed_fastpath_during_scan": passed_fastpath_while_scanning[0]}}
 
 
+REENTRY = [0]
+
+
+def run_reentrant(req):
+    """an extraction that starts on the thread that is in the middle of installing glue: a module's glue function extracts a
+    stack itself; a glue function fails and the program's warnings.showwarning hook dumps a stack with stackscope.  Every
+    extraction returns, each glue has run exactly once, the other module's glue is installed as well."""
+    variant = req["variant"]
+    REENTRY[0] += 1
+    n1, n2 = "vre_%d_a" % REENTRY[0], "vre_%d_b" % REENTRY[0]
+    log = []
+
+    def target():
+        yield 1
+
+    g = target()
+    next(g)
+
+    def nested(tag):
+        st = extract(g)
+        log.append((tag, len(st.frames), repr(st.error)))
+
+    def glue1():
+        log.append(("glue", n1))
+        if variant == "glue_extracts":
+            nested("nested_from_glue")
+        else:
+            raise ValueError("glue of %s fails" % n1)
+
+    def glue2():
+        log.append(("glue", n2))
+
+    m1, m2 = types.ModuleType(n1), types.ModuleType(n2)
+    m1._stackscope_install_glue_ = glue1
+    m2._stackscope_install_glue_ = glue2
+    result = {}
+
+    def showwarning(message, category, filename, lineno, file=None, line=None):
+        log.append(("warning", str(message)[:60]))
+        nested("nested_from_warning_hook")
+
+    def body():
+        with warnings.catch_warnings():
+            warnings.simplefilter("always")
+            if variant == "warning_hook_extracts":
+                warnings.showwarning = showwarning
+            sys.modules[n1] = m1
+            sys.modules[n2] = m2
+            try:
+                result["st"] = extract(g)
+            except BaseException as ex:
+                result["raised"] = repr(ex)
+
+    th = threading.Thread(target=body, daemon=True)
+    th.start()
+    th.join(req.get("patience", 20))
+    if th.is_alive():
+        # (the stuck thread holds the library's lock: this process is of no further use)
+        return {"corrupted": "extract() did not return within %d s: an extraction started on the thread that is installing "
+                             "glue (%s) blocks for ever; log so far: %r" % (req.get("patience", 20), variant, log)}
+    for n in (n1, n2):
+        sys.modules.pop(n, None)
+    obs = []
+    if "raised" in result:
+        obs.append({"kind": "extract_raised", "exc": result["raised"]})
+    else:
+        st = result["st"]
+        if len(st.frames) != 1 or st.error is not None:
+            obs.append({"kind": "outer_extraction_wrong", "frames": len(st.frames), "error": repr(st.error)})
+    runs = [e for e in log if e[0] == "glue"]
+    if sorted(runs) != [("glue", n1), ("glue", n2)]:
+        obs.append({"kind": "glue_runs", "got": runs, "exp": "each of the two once"})
+    nest = [e for e in log if e[0].startswith("nested")]
+    if len(nest) != 1 or nest[0][1] != 1 or nest[0][2] != "None":
+        obs.append({"kind": "nested_extraction", "got": nest})
+    return {"obs": obs, "known": [], "stats": {"glue_runs": len(runs)}}
+
+
 def handle(req):
     op = req["op"]
+    if op == "glue.reentrant":
+        return run_reentrant(req)
     if op == "glue.history":
         return run_history(req)
     if op == "glue.schedule":
